@@ -199,3 +199,64 @@ Proof. exact psd_example. Qed.
 Example C08_pauli_is_complete_onb :
   basis_herm 2 4 pauli_Cb /\ basis_orthonormal 2 4 pauli_Cb /\ basis_complete 2 4 pauli_Cb.
 Proof. exact (conj pauli_herm (conj pauli_orthonormal pauli_complete)). Qed.
+
+(* ------------------------------------------------------------------------------------------------
+   Semantic tie of numeric._get_integrand (control-matrix path, which_FF = 'generalized', spectrum of 1, 2 or 3 dimensions) and
+   of the direct path of numeric.calculate_decay_amplitudes (Proofs/KernelTieC08.v; docs/notes/kernel-tie.md): the terms
+   translated on every run from the CURRENT Python bodies by tools/kernel_extract.py (conj / identity applied through the
+   comprehension, the gathers [..., idx, :, :], the einsum strings, .real, util.integrate, / (2 pi)) ARE the model
+   functions integrand_cm / decay_entry_cm.  util.parse_spectrum and util.get_indices_from_identifiers are oracles.
+   ------------------------------------------------------------------------------------------------ *)
+From FF Require Import Extracted.Kernels Proofs.KernelTieC08.
+
+Theorem C08_kernels_translated : kernel_untranslated_C08 = nil.
+Proof. exact kernels_translated_C08. Qed.
+
+Theorem C08_kernel_integrand1_is_source : forall (L : Arr3 (T:=R)) idx (s : list (C (T:=R))) i k l o,
+  integrand_cm RO L L idx (Sp1 s) i i k l o =
+  integrand1_src RO (fun p => sel idx p) (fun o' => nth o' s (c0 RO)) (fun a k' o' => a3get RO L a k' o') i k l o.
+Proof. exact integrand1_is_source. Qed.
+
+Theorem C08_kernel_integrand2_is_source : forall (L : Arr3 (T:=R)) idx (s : list (list (C (T:=R)))) i k l o,
+  integrand_cm RO L L idx (Sp2 s) i i k l o =
+  integrand2_src RO (fun p => sel idx p) (fun i' o' => nth o' (nth i' s nil) (c0 RO)) (fun a k' o' => a3get RO L a k' o') i k l o.
+Proof. exact integrand2_is_source. Qed.
+
+Theorem C08_kernel_integrand3_is_source : forall (L : Arr3 (T:=R)) idx (s : list (list (list (C (T:=R))))) i j k l o,
+  integrand_cm RO L L idx (Sp3 s) i j k l o =
+  integrand3_src RO (fun p => sel idx p) (fun i' j' o' => nth o' (nth j' (nth i' s nil) nil) (c0 RO))
+                 (fun a k' o' => a3get RO L a k' o') i j k l o.
+Proof. exact integrand3_is_source. Qed.
+Print Assumptions C08_kernel_integrand3_is_source.
+
+Theorem C08_kernel_decay2_is_source : forall (L : Arr3 (T:=R)) idx (s : list (list (C (T:=R)))) (omega : list R) i k l,
+  decay_entry_cm RO L L idx (Sp2 s) (length omega) omega i i k l =
+  decay2_src RO (length omega) (fun p => sel idx p) (fun o => vget RO omega o) (fun i' o' => nth o' (nth i' s nil) (c0 RO))
+             (fun a k' o' => a3get RO L a k' o') i k l.
+Proof. exact decay2_is_source. Qed.
+Print Assumptions C08_kernel_decay2_is_source.
+
+Theorem C08_kernel_decay3_is_source : forall (L : Arr3 (T:=R)) idx (s : list (list (list (C (T:=R))))) (omega : list R) i j k l,
+  decay_entry_cm RO L L idx (Sp3 s) (length omega) omega i j k l =
+  decay3_src RO (length omega) (fun p => sel idx p) (fun o => vget RO omega o)
+             (fun i' j' o' => nth o' (nth j' (nth i' s nil) nil) (c0 RO)) (fun a k' o' => a3get RO L a k' o') i j k l.
+Proof. exact decay3_is_source. Qed.
+
+(* filter-function path of _get_integrand (moveaxis, F[..., tuple(idx), tuple(idx), :] * spectrum, moveaxis back, .real) and the
+   direct path of calculate_decay_amplitudes with the cached generalized filter function *)
+Theorem C08_kernel_integrand_ff1_is_source : forall (F : Arr5 (T:=R)) idx (s : list (C (T:=R))) i k l o,
+  integrand_ff RO F idx (Sp1 s) i i k l o =
+  integrand_ff1_src RO (fun p => sel idx p) (fun o' => nth o' s (c0 RO)) (fun a b k' l' o' => a5get RO F a b k' l' o') i k l o.
+Proof. exact integrand_ff1_is_source. Qed.
+
+Theorem C08_kernel_integrand_ff2_is_source : forall (F : Arr5 (T:=R)) idx (s : list (list (C (T:=R)))) i k l o,
+  integrand_ff RO F idx (Sp2 s) i i k l o =
+  integrand_ff2_src RO (fun p => sel idx p) (fun i' o' => nth o' (nth i' s nil) (c0 RO))
+                    (fun a b k' l' o' => a5get RO F a b k' l' o') i k l o.
+Proof. exact integrand_ff2_is_source. Qed.
+
+Theorem C08_kernel_decay_ff2_is_source : forall (F : Arr5 (T:=R)) idx (s : list (list (C (T:=R)))) (omega : list R) i k l,
+  decay_entry_ff RO F idx (Sp2 s) (length omega) omega i i k l =
+  decay_ff2_src RO (length omega) (fun p => sel idx p) (fun o => vget RO omega o) (fun i' o' => nth o' (nth i' s nil) (c0 RO))
+                (fun a b k' l' o' => a5get RO F a b k' l' o') i k l.
+Proof. exact decay_ff2_is_source. Qed.
